@@ -62,6 +62,8 @@ def upgrade_table(ctx: Ctx, rule: str) -> None:
 
 
 def run(ctx: Ctx) -> None:
+    if getattr(ctx, "_depth", 0) >= 2:
+        return  # alias of an alias: not followed (breaks import cycles between rule modules)
     repo = ctx.repo
     ctx.rule("C11.R1", "Handshake.is_valid decision table: valid iff version == 13 and http_version >= 1.1 and (HTTP/1.1 => key present, `upgrade` among the Connection tokens, Upgrade == websocket)", floor=1)
     ctx.rule("C11.R2", "carrier detection: HTTP/1.1 picks a WebSocket iff GET + Upgrade: websocket + Connection token upgrade (whitespace/case tolerant); HTTP/2 iff CONNECT", floor=2)
